@@ -90,6 +90,12 @@ Theorem C33_source_facts :
   gen_c33_next_switches_strictly_after_end = true /\
   gen_c33_active_is_safe_start_le_now_lt_safe_end = true /\
   gen_c33_in_window_is_active_flag_of_next_window = true /\
-  gen_c33_previous_switches_before_start = true.
+  gen_c33_previous_switches_before_start = true /\
+  (* the configuration path: sleep.NewManager keeps the instant time.Parse returned *)
+  gen_c33_manager_epoch_is_the_parsed_instant = true /\
+  gen_c33_manager_cycle_is_poll_interval = true /\
+  gen_c33_manager_window_and_tolerance_when_positive = true /\
+  gen_c33_default_window_ns = default_window /\
+  gen_c33_default_tolerance_ns = default_tolerance.
 Proof. repeat split; reflexivity. Qed.
 Print Assumptions C33_source_facts.
